@@ -1333,7 +1333,10 @@ def is_protocol_implementation(
         subtype_context=SubtypeContext(ignore_pos_arg_names=ignore_names),
         proper_subtype=proper_subtype,
     )
-    type_state.record_subtype_cache_entry(subtype_kind, left, right)
+    if not class_obj:
+        # The cache is keyed by instance types: a class object implementing the protocol
+        # says nothing about instances of the class.
+        type_state.record_subtype_cache_entry(subtype_kind, left, right)
     return True
 
 
